@@ -451,3 +451,79 @@ def ooxml_encrypted_shell(streams=("EncryptionInfo", "EncryptedPackage", "DataSp
             raise NotImplementedError("encryption stream %r" % (s,))
     out.update(extra or {})
     return cfb(out, opts)
+
+
+# =====================================================================================================================
+# [MS-ODRAW] helpers shared by the BIFF8 and PPT writers: record framing, BLIP records, BSE entries
+# =====================================================================================================================
+def oa_rec(ver: int, inst: int, typ: int, data: bytes) -> bytes:
+    """OfficeArt / PowerPoint record: header <HHI (recVer | recInstance << 4, recType, recLen) + data"""
+    return struct.pack("<HHI", (inst << 4) | ver, typ, len(data)) + data
+
+
+def oa_container(typ: int, children, inst: int = 0) -> bytes:
+    return oa_rec(0xF, inst, typ, b"".join(children))
+
+
+def md4(data: bytes) -> bytes:
+    """RFC 1320 (hashlib's md4 is not available everywhere); BLIP uids are MD4 digests of the image data."""
+    msg = data + b"\x80" + b"\0" * ((55 - len(data)) % 64) + struct.pack("<Q", len(data) * 8)
+    a0, b0, c0, d0 = 0x67452301, 0xEFCDAB89, 0x98BADCFE, 0x10325476
+    M = 0xFFFFFFFF
+
+    def rol(x, n):
+        return ((x << n) | (x >> (32 - n))) & M
+    for off in range(0, len(msg), 64):
+        X = struct.unpack_from("<16I", msg, off)
+        a, b, c, d = a0, b0, c0, d0
+        for i in range(16):
+            k, s = i, (3, 7, 11, 19)[i % 4]
+            a, b, c, d = d, rol((a + ((b & c) | (~b & M & d)) + X[k]) & M, s), b, c
+        for i in range(16):
+            k, s = (i % 4) * 4 + i // 4, (3, 5, 9, 13)[i % 4]
+            a, b, c, d = d, rol((a + ((b & c) | (b & d) | (c & d)) + X[k] + 0x5A827999) & M, s), b, c
+        for i in range(16):
+            k, s = (0, 8, 4, 12, 2, 10, 6, 14, 1, 9, 5, 13, 3, 11, 7, 15)[i], (3, 9, 11, 15)[i % 4]
+            a, b, c, d = d, rol((a + (b ^ c ^ d) + X[k] + 0x6ED9EBA1) & M, s), b, c
+        a0, b0, c0, d0 = (a0 + a) & M, (b0 + b) & M, (c0 + c) & M, (d0 + d) & M
+    return struct.pack("<4I", a0, b0, c0, d0)
+
+
+_uid_cache: dict = {}
+
+
+def blip(image: bytes):
+    """image file bytes -> (OfficeArtBlip record, MSOBLIPTYPE, rgbUid).  PNG, JPEG (RGB or CMYK), TIFF and BMP (stored as DIB)."""
+    if image[:8] == b"\x89PNG\r\n\x1a\n":
+        typ, inst, bt, payload = 0xF01E, 0x6E0, 6, image
+    elif image[:3] == b"\xff\xd8\xff":
+        cmyk = False
+        p = 2
+        while p + 4 <= len(image) and image[p] == 0xFF:        # find the frame header to see the component count
+            m = image[p + 1]
+            if m in (0xC0, 0xC1, 0xC2):
+                cmyk = image[p + 9] == 4
+                break
+            if m == 0xD8 or 0xD0 <= m <= 0xD7 or m == 0x01:
+                p += 2
+                continue
+            p += 2 + struct.unpack_from(">H", image, p + 2)[0]
+        typ, inst, bt, payload = 0xF01D, 0x6E2 if cmyk else 0x46A, 5, image
+    elif image[:4] in (b"II*\0", b"MM\0*"):
+        typ, inst, bt, payload = 0xF029, 0x6E4, 0x11, image
+    elif image[:2] == b"BM":
+        typ, inst, bt, payload = 0xF01F, 0x7A8, 7, image[14:]   # DIB = BMP without the 14-byte file header
+    else:
+        raise NotImplementedError("image format not expressible as an OfficeArt BLIP")
+    uid = _uid_cache.get(payload)
+    if uid is None:
+        uid = md4(payload)
+        if len(_uid_cache) < 256:
+            _uid_cache[payload] = uid
+    return oa_rec(0, inst, typ, uid + b"\xff" + payload), bt, uid
+
+
+def fbse(bt: int, uid: bytes, size: int, delay_offset: int, embedded: bytes = b"", refs: int = 1) -> bytes:
+    """OfficeArtFBSE: `size` = length of the BLIP record; the BLIP itself either follows (`embedded`, XLS) or lives at
+    `delay_offset` of the delay stream (PPT 'Pictures' stream)."""
+    return oa_rec(2, bt, 0xF007, struct.pack("<BB", bt, bt) + uid + struct.pack("<HIIIBBBB", 0xFF, size, refs, delay_offset, 0, 0, 0, 0) + embedded)
